@@ -85,7 +85,7 @@ pub struct M02<C: Suite> {
     _c: PhantomData<C>,
 }
 
-const R_SIG: [SigOp; 4] = [SigOp::OtherMsg, SigOp::OtherKey, SigOp::Neg, SigOp::AddG];
+const R_SIG: [SigOp; 5] = [SigOp::OtherMsg, SigOp::OtherKey, SigOp::Neg, SigOp::AddG, SigOp::Identity];
 const R_PK: [PkOp; 4] = [PkOp::Other, PkOp::AddG, PkOp::Neg, PkOp::Identity];
 
 impl<C: Suite> M02<C> {
@@ -416,8 +416,15 @@ impl<C: Suite> Model for M02<C> {
         let v1 = guard(|| mk_sig::<C>(label, sig).verify(&pkw, &msg));
         let v2 = guard(|| mk_multi_sig::<C>(label, sig).verify(MultiPublicKey::<C>(pk), &msg));
         let v3 = guard(|| mk_pk_share::<C>(1, &pk).verify(&mk_sig_share::<C>(label, 1, &sig), &msg));
-        o.calls(3);
-        for (entry, v) in [("Signature::verify", &v1), ("MultiSignature::verify", &v2), ("PublicKeyShare::verify", &v3)] {
+        // the scheme traits' own verify functions (public API as well)
+        let v4 = guard(|| match label {
+            Scheme::Basic => <C as BlsSignatureBasic>::verify(pk, sig, &msg),
+            Scheme::Aug => <C as BlsSignatureMessageAugmentation>::verify(pk, sig, &msg),
+            Scheme::Pop => <C as BlsSignaturePop>::verify(pk, sig, &msg),
+        });
+        let v5 = guard(|| <C as BlsSignatureCore>::core_verify(pk, sig, if label == Scheme::Aug { rf::aug_msg::<C::R>(&<C::R as rf::RefSuite>::pk_from(&pkb).unwrap_or(<<C::R as rf::RefSuite>::Pk as bls12_381_plus::group::Group>::identity()), &msg) } else { msg.clone() }, rf::sig_dst::<C::R>(label)));
+        o.calls(5);
+        for (entry, v) in [("Signature::verify", &v1), ("MultiSignature::verify", &v2), ("PublicKeyShare::verify", &v3), ("trait::verify", &v4), ("BlsSignatureCore::core_verify", &v5)] {
             let acc = matches!(v, Ok(Ok(())));
             o.record(entry, verdict(v).as_bytes());
             o.expect(
